@@ -5,6 +5,7 @@ States are deduplicated on the digest of the whole object graph of the pool (ali
 import collections
 import pickle
 
+from . import alphabet as A
 from . import canon as C
 from . import core
 from . import refmodel as R
@@ -33,7 +34,7 @@ def apply_op(spec, pool, refs, op, menu):
     if k == "fill":
         _, i, e = op
         r, w = menu["events"][e]
-        pool[i].fill(r, w)
+        pool[i].fill(A.fresh(r), w)
         refs[i].evs.append((r, w))
     elif k == "fillnp":
         _, i, b = op
